@@ -71,13 +71,16 @@ def must (s : St) : List Grp :=
    | .synced g | .applied g | .published g => if g.sync then [g] else []
    | _ => [])
 
-/-- everything `Open` needs of one manifest view -/
+/-- everything `Open` needs of one manifest view.  A record in a journal the view replays may lie below the view's
+    sequence number (the record of a failed write, overtaken by the commit of a transaction): `recoverJournal`
+    skips it (`replayJ`), so it must not be one that has to survive (`jseq`); whatever is in those journals is
+    disjoint from what the tables hold (`tj`). -/
 structure ViewOK (d : Disk) (must issued : List Grp) (v : MView) : Prop where
   tables : ∀ t ∈ v.live, t < v.nf ∧ Holds (lookup d.tables t) fun tf => tf.synced = true ∧ tf.bad = false
   tseq : ∀ g ∈ liveGrps d v, g.fin ≤ v.sq + 1 ∧ g ∈ issued ∧ g.recs ≠ []
   tdisj : ∀ g ∈ liveGrps d v, ∀ h ∈ liveGrps d v, Disj g h
-  jseq : ∀ p ∈ relJournals d v.jn, ∀ g ∈ p.2.all, v.sq ≤ g.seq ∧ g ∈ issued
-  tj : ∀ g ∈ liveGrps d v, ∀ p ∈ relJournals d v.jn, ∀ h ∈ p.2.all, g.fin ≤ h.seq
+  jseq : ∀ p ∈ relJournals d v.jn, ∀ g ∈ p.2.all, (v.sq ≤ g.seq ∨ g ∉ must) ∧ g ∈ issued
+  tj : ∀ g ∈ liveGrps d v, ∀ p ∈ relJournals d v.jn, ∀ h ∈ p.2.all, Disj g h
   cover : ∀ g ∈ must, g ∈ liveGrps d v ∨ ∃ p ∈ relJournals d v.jn, g ∈ p.2.synced
   /-- the journal number was allocated before the record's next-file number was read -/
   jnf : v.jn < v.nf
@@ -87,8 +90,8 @@ instance (d : Disk) (must issued : List Grp) (v : MView) : Decidable (ViewOK d m
     ((∀ t ∈ v.live, t < v.nf ∧ Holds (lookup d.tables t) fun tf => tf.synced = true ∧ tf.bad = false) ∧
      (∀ g ∈ liveGrps d v, g.fin ≤ v.sq + 1 ∧ g ∈ issued ∧ g.recs ≠ []) ∧
      (∀ g ∈ liveGrps d v, ∀ h ∈ liveGrps d v, Disj g h) ∧
-     (∀ p ∈ relJournals d v.jn, ∀ g ∈ p.2.all, v.sq ≤ g.seq ∧ g ∈ issued) ∧
-     (∀ g ∈ liveGrps d v, ∀ p ∈ relJournals d v.jn, ∀ h ∈ p.2.all, g.fin ≤ h.seq) ∧
+     (∀ p ∈ relJournals d v.jn, ∀ g ∈ p.2.all, (v.sq ≤ g.seq ∨ g ∉ must) ∧ g ∈ issued) ∧
+     (∀ g ∈ liveGrps d v, ∀ p ∈ relJournals d v.jn, ∀ h ∈ p.2.all, Disj g h) ∧
      (∀ g ∈ must, g ∈ liveGrps d v ∨ ∃ p ∈ relJournals d v.jn, g ∈ p.2.synced) ∧ v.jn < v.nf)
     ⟨fun ⟨a, b, c, e, f, g, h⟩ => ⟨a, b, c, e, f, g, h⟩, fun ⟨a, b, c, e, f, g, h⟩ => ⟨a, b, c, e, f, g, h⟩⟩
 
@@ -226,12 +229,11 @@ instance (s : St) : Decidable (WSeqOK s) := by unfold WSeqOK; split <;> infer_in
 
 /-- a journal file holds the groups `content` (the write buffer whose journal it is); it may hold more: the
     record of a write whose journal `Write`/`Sync` failed may have reached the file.  Such a record is never one
-    that must survive, and it ends at or below `bound + 1` (its sequence numbers are consumed).  While a
-    transaction is open no such record waits in a journal the next `Open` would replay (a restriction of what
-    is proved, see `C08.fault_safe_writer_partial`). -/
+    that must survive, and it ends at or below `bound + 1` (its sequence numbers are consumed).  As long as no
+    journal operation of the write path has failed (ghost `St.everFailed`) the file holds exactly `content`. -/
 def JournalHolds (s : St) (jf : LogFile Grp) (content : List Grp) (bound : Nat) : Prop :=
   (∀ g ∈ content, g ∈ jf.all) ∧ (∀ g ∈ jf.all, g ∈ must s → g ∈ content) ∧
-  (∀ g ∈ jf.all, g ∈ content ∨ g.fin ≤ bound + 1) ∧ (s.tr.isSome = true → jf.all = []) ∧
+  (∀ g ∈ jf.all, g ∈ content ∨ g.fin ≤ bound + 1) ∧
   (s.everFailed = false → ∀ g ∈ jf.all, g ∈ content)
 
 instance (s : St) (jf : LogFile Grp) (content : List Grp) (bound : Nat) : Decidable (JournalHolds s jf content bound) := by
@@ -243,7 +245,7 @@ def Stale0 (s : St) (jf : LogFile Grp) : Prop := ∀ g ∈ jf.all, g ∉ must s 
 instance (s : St) (jf : LogFile Grp) : Decidable (Stale0 s jf) := by unfold Stale0; infer_instance
 
 def Stale (s : St) (jf : LogFile Grp) : Prop :=
-  Stale0 s jf ∧ (s.tr.isSome = true → jf.all = []) ∧ (s.everFailed = false → jf.all = [])
+  Stale0 s jf ∧ (s.everFailed = false → jf.all = [])
 
 instance (s : St) (jf : LogFile Grp) : Decidable (Stale s jf) := by unfold Stale; infer_instance
 
@@ -283,10 +285,14 @@ instance (s : St) : Decidable (TrOK s) := by unfold TrOK; infer_instance
 structure RunOK (cfg : Cfg) (s : St) (d : Disk) : Prop where
   norecov : s.recov = none ∧ TrOK s
   mfd : MfdOK s d ∧ s.manifestOpen = true
-  /-- the current journal holds exactly the groups of the write buffer, plus the one in flight -/
+  /-- the current journal holds the groups of the write buffer, plus the one in flight (and possibly records of
+      failed writes) -/
   jcur : Holds (lookup d.journals s.jcur) fun jf => JournalHolds s jf (s.mem ++ inflight s.w) s.seq
-  jmax : ∀ p ∈ d.journals, p.1 ≤ s.jcur
-  nums : (∀ p ∈ d.journals, p.1 < s.nextFile) ∧ Holds d.current (· < s.nextFile)
+  /-- the current journal has the largest number — except for empty journals a failed `Create` of `newMem` left
+      behind (`reuseFileNum` hands their number back: they lie at or above `nextFile` until a table, a manifest or
+      the next journal takes the number) -/
+  jmax : s.jcur < s.nextFile ∧ ∀ p ∈ d.journals, p.1 ≤ s.jcur ∨ p.2.all = []
+  nums : (∀ p ∈ d.journals, p.1 < s.nextFile ∨ p.1 = s.nextFile ∧ p.2.all = []) ∧ Holds d.current (· < s.nextFile)
   wseq : WSeqOK s
   frozen : FrozenOK cfg s d
   /-- only the frozen and the current journal can be relevant -/
@@ -298,8 +304,8 @@ instance (cfg : Cfg) (s : St) (d : Disk) : Decidable (RunOK cfg s d) :=
   decidable_of_iff
     ((s.recov = none ∧ TrOK s) ∧ (MfdOK s d ∧ s.manifestOpen = true) ∧
      (Holds (lookup d.journals s.jcur) fun jf => JournalHolds s jf (s.mem ++ inflight s.w) s.seq) ∧
-     (∀ p ∈ d.journals, p.1 ≤ s.jcur) ∧
-     ((∀ p ∈ d.journals, p.1 < s.nextFile) ∧ Holds d.current (· < s.nextFile)) ∧
+     (s.jcur < s.nextFile ∧ ∀ p ∈ d.journals, p.1 ≤ s.jcur ∨ p.2.all = []) ∧
+     ((∀ p ∈ d.journals, p.1 < s.nextFile ∨ p.1 = s.nextFile ∧ p.2.all = []) ∧ Holds d.current (· < s.nextFile)) ∧
      WSeqOK s ∧ FrozenOK cfg s d ∧
      (Holds (curManifest d) fun mf => Holds (viewAt cfg mf 0) fun v0 =>
        ∀ p ∈ d.journals, v0.jn ≤ p.1 → p.1 = s.jcur ∨ some p.1 = s.jfrozen ∨ Stale s p.2) ∧
@@ -310,8 +316,9 @@ instance (cfg : Cfg) (s : St) (d : Disk) : Decidable (RunOK cfg s d) :=
 /-- the recovery memdb is the content of the journal replayed last -/
 def MdbOK (s : St) (d : Disk) (r : Recov) : Prop :=
   match r.ofd with
-  | some o => (∀ p ∈ d.journals, p.1 = o → p.2.all = r.mdb) ∧ (∀ g ∈ r.mdb, g.fin ≤ s.seq) ∧
-      (NoCommitYet s → (∃ p ∈ d.journals, p.1 = o) ∨ r.mdb = [])
+  | some o => (∀ p ∈ d.journals, p.1 = o → (∀ g ∈ r.mdb, g ∈ p.2.all) ∧ ∀ g ∈ p.2.all, g ∈ r.mdb ∨ g ∉ must s) ∧
+      (∀ g ∈ r.mdb, g.fin ≤ s.seq) ∧
+      (NoCommitYet s → ((∃ p ∈ d.journals, p.1 = o) ∨ r.mdb = []) ∧ ∀ g ∈ r.mdb, s.stSq ≤ g.seq)
   | none => r.mdb = []
 
 instance (s : St) (d : Disk) (r : Recov) : Decidable (MdbOK s d r) := by unfold MdbOK; split <;> infer_instance
@@ -324,7 +331,7 @@ structure RecOK (cfg : Cfg) (s : St) (d : Disk) (r : Recov) : Prop where
   ofdLt : ∀ o, r.ofd = some o → ∀ n ∈ r.todo, o < n
   nums : (∀ p ∈ d.journals, p.1 < s.nextFile) ∧ Holds d.current (· < s.nextFile) ∧ ∀ n ∈ r.todo, n < s.nextFile
   /-- the journals still to come start at `db.seq` or above -/
-  todoSeq : ∀ p ∈ d.journals, p.1 ∈ r.todo → ∀ g ∈ p.2.all, s.seq ≤ g.seq
+  todoSeq : ∀ p ∈ d.journals, p.1 ∈ r.todo → ∀ g ∈ p.2.all, s.seq ≤ g.seq ∨ g ∉ must s
   mdb : MdbOK s d r
   view : NoCommitYet s → Settled cfg s d fun v => Mirror s v ∧ (∀ o, r.ofd = some o → v.jn ≤ o)
   /-- every journal the last view would replay is still to come, the one replayed last, or empty; the
@@ -339,7 +346,7 @@ instance (cfg : Cfg) (s : St) (d : Disk) (r : Recov) : Decidable (RecOK cfg s d 
     (MfdOK s d ∧ (s.w = .idle ∧ s.frozen = none ∧ s.tr = none) ∧ r.todo.Pairwise (· < ·) ∧
      (∀ o, r.ofd = some o → ∀ n ∈ r.todo, o < n) ∧
      ((∀ p ∈ d.journals, p.1 < s.nextFile) ∧ Holds d.current (· < s.nextFile) ∧ ∀ n ∈ r.todo, n < s.nextFile) ∧
-     (∀ p ∈ d.journals, p.1 ∈ r.todo → ∀ g ∈ p.2.all, s.seq ≤ g.seq) ∧ MdbOK s d r ∧
+     (∀ p ∈ d.journals, p.1 ∈ r.todo → ∀ g ∈ p.2.all, s.seq ≤ g.seq ∨ g ∉ must s) ∧ MdbOK s d r ∧
      (NoCommitYet s → Settled cfg s d fun v => Mirror s v ∧ (∀ o, r.ofd = some o → v.jn ≤ o)) ∧
      (Holds (lastView cfg d) fun v =>
         (∀ p ∈ d.journals, v.jn ≤ p.1 → p.1 ∈ r.todo ∨ some p.1 = r.ofd ∨ p.2.all = []) ∧ ∀ n ∈ r.todo, v.jn ≤ n) ∧
@@ -387,7 +394,7 @@ structure EditOK (s : St) (d : Disk) (j : Job) (e : MRec) (v : MView) : Prop whe
   outs : ∀ g ∈ outsGrps j, g.fin ≤ e.sq.getD v.sq + 1 ∧ g ∈ issuedGrps s ∧ g.recs ≠ [] ∧
     (∀ h ∈ liveGrps d v, Disj g h) ∧ ∀ h ∈ outsGrps j, Disj g h
   keep : ∀ p ∈ d.journals, e.jn.getD v.jn ≤ p.1 → ∀ g ∈ p.2.all,
-    e.sq.getD v.sq ≤ g.seq ∧ ∀ h ∈ outsGrps j, h.fin ≤ g.seq
+    (e.sq.getD v.sq ≤ g.seq ∨ g ∉ must s) ∧ ∀ h ∈ outsGrps j, Disj h g
   mono : v.jn ≤ e.jn.getD v.jn ∧ v.sq ≤ e.sq.getD v.sq ∧ e.sq.getD v.sq ≤ sqCap s j ∧
     (s.phase = .running → e.jn.getD v.jn ≤ s.jcur) ∧ e.jn.getD v.jn < s.nextFile
   fresh : ∀ o ∈ j.outs, v.nf ≤ o.1 ∧ o.1 < s.nextFile
@@ -402,7 +409,7 @@ instance (s : St) (d : Disk) (j : Job) (e : MRec) (v : MView) : Decidable (EditO
      (∀ g ∈ outsGrps j, g.fin ≤ e.sq.getD v.sq + 1 ∧ g ∈ issuedGrps s ∧ g.recs ≠ [] ∧
         (∀ h ∈ liveGrps d v, Disj g h) ∧ ∀ h ∈ outsGrps j, Disj g h) ∧
      (∀ p ∈ d.journals, e.jn.getD v.jn ≤ p.1 → ∀ g ∈ p.2.all,
-        e.sq.getD v.sq ≤ g.seq ∧ ∀ h ∈ outsGrps j, h.fin ≤ g.seq) ∧
+        (e.sq.getD v.sq ≤ g.seq ∨ g ∉ must s) ∧ ∀ h ∈ outsGrps j, Disj h g) ∧
      (v.jn ≤ e.jn.getD v.jn ∧ v.sq ≤ e.sq.getD v.sq ∧ e.sq.getD v.sq ≤ sqCap s j ∧
         (s.phase = .running → e.jn.getD v.jn ≤ s.jcur) ∧ e.jn.getD v.jn < s.nextFile) ∧
      (∀ o ∈ j.outs, v.nf ≤ o.1 ∧ o.1 < s.nextFile))
